@@ -98,6 +98,10 @@ extern "C" void __tsan_release(void*);
 #endif
 // shims: never inlined into instrumented code and never themselves preempted mid-protocol
 #define VS_SHIM __attribute__((noinline, no_sanitize("coverage")))
+// lock-family shims: their own bookkeeping fields are simulator state, not program state, so TSan must not
+// see them; the happens-before edges a real lock provides are asserted explicitly with VS_TACQ / VS_TREL.
+// (atomic<T> shims stay instrumented: they execute the real atomic builtin with the program's memory order.)
+#define VS_LOCKSHIM __attribute__((noinline, no_sanitize("coverage"), no_sanitize("thread")))
 
 namespace std {
 
@@ -257,7 +261,7 @@ class vsim_mutex {
   vsim_mutex(const vsim_mutex&) = delete;
   vsim_mutex& operator=(const vsim_mutex&) = delete;
   using native_handle_type = void*;
-  VS_SHIM void lock() {
+  VS_LOCKSHIM void lock() {
     for (;;) {
       vsim::point(vsim::K_MLOCK, this, 0);
       if (!owner_) { owner_ = vsim::self() + 2; VS_TACQ(this); vsim::progress(); return; }
@@ -265,38 +269,37 @@ class vsim_mutex {
       vsim::block_on(this);
     }
   }
-  VS_SHIM bool try_lock() {
+  VS_LOCKSHIM bool try_lock() {
     vsim::point(vsim::K_MLOCK, this, 1);
     if (!owner_) { owner_ = vsim::self() + 2; VS_TACQ(this); vsim::progress(); return true; }
     return false;
   }
-  VS_SHIM void unlock() {
+  VS_LOCKSHIM void unlock() {
     if (owner_ != vsim::self() + 2) vsim::fail("bad-unlock", "mutex unlocked by a thread that does not own it");
     VS_TREL(this); owner_ = 0; vsim::wake_all(this); vsim::written(this);
     vsim::point(vsim::K_MUNLOCK, this, 0);
   }
   // used by condition_variable::wait: release without a scheduling point
-  VS_SHIM void unlock_np_() { VS_TREL(this); owner_ = 0; vsim::wake_all(this); vsim::written(this); }
-  int owner_np_() const { return owner_; }
+  VS_LOCKSHIM void unlock_np_() { VS_TREL(this); owner_ = 0; vsim::wake_all(this); vsim::written(this); }
 };
 class vsim_recursive_mutex {
   int owner_ = 0; int depth_ = 0;
  public:
   constexpr vsim_recursive_mutex() noexcept = default;
   vsim_recursive_mutex(const vsim_recursive_mutex&) = delete;
-  VS_SHIM void lock() {
+  VS_LOCKSHIM void lock() {
     for (;;) {
       vsim::point(vsim::K_MLOCK, this, 2);
       if (!owner_ || owner_ == vsim::self() + 2) { owner_ = vsim::self() + 2; if (!depth_++) VS_TACQ(this); vsim::progress(); return; }
       vsim::block_on(this);
     }
   }
-  VS_SHIM bool try_lock() {
+  VS_LOCKSHIM bool try_lock() {
     vsim::point(vsim::K_MLOCK, this, 3);
     if (!owner_ || owner_ == vsim::self() + 2) { owner_ = vsim::self() + 2; if (!depth_++) VS_TACQ(this); return true; }
     return false;
   }
-  VS_SHIM void unlock() {
+  VS_LOCKSHIM void unlock() {
     if (--depth_ == 0) { VS_TREL(this); owner_ = 0; vsim::wake_all(this); vsim::written(this); }
     vsim::point(vsim::K_MUNLOCK, this, 2);
   }
@@ -315,32 +318,32 @@ class vsim_shared_mutex {
  public:
   constexpr vsim_shared_mutex() noexcept = default;
   vsim_shared_mutex(const vsim_shared_mutex&) = delete;
-  VS_SHIM void lock() {
+  VS_LOCKSHIM void lock() {
     for (;;) {
       vsim::point(vsim::K_MLOCK, this, 4);
       if (!writer_ && readers_ == 0) { writer_ = vsim::self() + 2; VS_TACQ(this); vsim::progress(); return; }
       vsim::block_on(this);
     }
   }
-  VS_SHIM bool try_lock() {
+  VS_LOCKSHIM bool try_lock() {
     vsim::point(vsim::K_MLOCK, this, 5);
     if (!writer_ && readers_ == 0) { writer_ = vsim::self() + 2; VS_TACQ(this); return true; }
     return false;
   }
-  VS_SHIM void unlock() { VS_TREL(this); writer_ = 0; vsim::wake_all(this); vsim::written(this); vsim::point(vsim::K_MUNLOCK, this, 4); }
-  VS_SHIM void lock_shared() {
+  VS_LOCKSHIM void unlock() { VS_TREL(this); writer_ = 0; vsim::wake_all(this); vsim::written(this); vsim::point(vsim::K_MUNLOCK, this, 4); }
+  VS_LOCKSHIM void lock_shared() {
     for (;;) {
       vsim::point(vsim::K_MLOCK, this, 6);
       if (!writer_) { readers_++; VS_TACQ(this); vsim::progress(); return; }
       vsim::block_on(this);
     }
   }
-  VS_SHIM bool try_lock_shared() {
+  VS_LOCKSHIM bool try_lock_shared() {
     vsim::point(vsim::K_MLOCK, this, 7);
     if (!writer_) { readers_++; VS_TACQ(this); return true; }
     return false;
   }
-  VS_SHIM void unlock_shared() {
+  VS_LOCKSHIM void unlock_shared() {
     VS_TREL(this);
     if (--readers_ == 0) { vsim::wake_all(this); }
     vsim::written(this);
@@ -353,9 +356,9 @@ class vsim_condition_variable {
  public:
   vsim_condition_variable() noexcept = default;
   vsim_condition_variable(const vsim_condition_variable&) = delete;
-  VS_SHIM void notify_one() noexcept { vsim::point(vsim::K_CVNOTIFY, this, 1); vsim::wake_one(this); }
-  VS_SHIM void notify_all() noexcept { vsim::point(vsim::K_CVNOTIFY, this, 0); vsim::wake_all(this); }
-  VS_SHIM void wait(unique_lock<vsim_mutex>& lk) {
+  VS_LOCKSHIM void notify_one() noexcept { vsim::point(vsim::K_CVNOTIFY, this, 1); vsim::wake_one(this); }
+  VS_LOCKSHIM void notify_all() noexcept { vsim::point(vsim::K_CVNOTIFY, this, 0); vsim::wake_all(this); }
+  VS_LOCKSHIM void wait(unique_lock<vsim_mutex>& lk) {
     vsim_mutex* m = lk.mutex();
     vsim::point(vsim::K_CVWAIT, this, 0);
     if (vsim::coin_spurious()) { m->unlock(); m->lock(); return; }
@@ -364,7 +367,7 @@ class vsim_condition_variable {
     m->lock();
   }
   template <class P> void wait(unique_lock<vsim_mutex>& lk, P pred) { while (!pred()) wait(lk); }
-  VS_SHIM bool wait_ns_(unique_lock<vsim_mutex>& lk, uint64_t ns) {  // false on timeout
+  VS_LOCKSHIM bool wait_ns_(unique_lock<vsim_mutex>& lk, uint64_t ns) {  // false on timeout
     vsim_mutex* m = lk.mutex();
     vsim::point(vsim::K_CVWAIT, this, 1);
     if (vsim::coin_spurious()) { m->unlock(); m->lock(); return true; }
@@ -396,7 +399,7 @@ struct vsim_once_flag {
   int state_ = 0;  // 0 idle, 1 running, 2 done
   constexpr vsim_once_flag() noexcept = default;
   vsim_once_flag(const vsim_once_flag&) = delete;
-  VS_SHIM bool enter_() {   // true: caller must run the function
+  VS_LOCKSHIM bool enter_() {   // true: caller must run the function
     for (;;) {
       vsim::point(vsim::K_ONCE, this, state_);
       if (state_ == 2) { VS_TACQ(this); return false; }
@@ -404,7 +407,7 @@ struct vsim_once_flag {
       vsim::block_on(this);
     }
   }
-  VS_SHIM void leave_(bool ok) { if (ok) VS_TREL(this); state_ = ok ? 2 : 0; vsim::wake_all(this); vsim::written(this); }
+  VS_LOCKSHIM void leave_(bool ok) { if (ok) VS_TREL(this); state_ = ok ? 2 : 0; vsim::wake_all(this); vsim::written(this); }
 };
 template <class F, class... A>
 void vsim_call_once(vsim_once_flag& f, F&& fn, A&&... a) {
@@ -491,9 +494,9 @@ class vsim_latch {
  public:
   explicit vsim_latch(ptrdiff_t n) : n_(n) {}
   vsim_latch(const vsim_latch&) = delete;
-  VS_SHIM void count_down(ptrdiff_t k = 1) { vsim::point(vsim::K_ARMW, this, 0); VS_TREL(this); n_ -= k; vsim::written(this); if (n_ <= 0) vsim::wake_all(this); }
-  VS_SHIM bool try_wait() const noexcept { vsim::point(vsim::K_ALOAD, this, 0); if (n_ <= 0) { VS_TACQ(this); return true; } return false; }
-  VS_SHIM void wait() const { for (;;) { vsim::point(vsim::K_AWAIT, this, 0); if (n_ <= 0) { VS_TACQ(this); return; } vsim::block_on(this); } }
+  VS_LOCKSHIM void count_down(ptrdiff_t k = 1) { vsim::point(vsim::K_ARMW, this, 0); VS_TREL(this); n_ -= k; vsim::written(this); if (n_ <= 0) vsim::wake_all(this); }
+  VS_LOCKSHIM bool try_wait() const noexcept { vsim::point(vsim::K_ALOAD, this, 0); if (n_ <= 0) { VS_TACQ(this); return true; } return false; }
+  VS_LOCKSHIM void wait() const { for (;;) { vsim::point(vsim::K_AWAIT, this, 0); if (n_ <= 0) { VS_TACQ(this); return; } vsim::block_on(this); } }
   void arrive_and_wait(ptrdiff_t k = 1) { count_down(k); wait(); }
 };
 template <ptrdiff_t Max = 0x7fffffff>
@@ -503,9 +506,9 @@ class vsim_counting_semaphore {
   explicit vsim_counting_semaphore(ptrdiff_t n) : n_(n) {}
   vsim_counting_semaphore(const vsim_counting_semaphore&) = delete;
   static constexpr ptrdiff_t max() noexcept { return Max; }
-  VS_SHIM void release(ptrdiff_t k = 1) { vsim::point(vsim::K_ARMW, this, 0); VS_TREL(this); n_ += k; vsim::written(this); vsim::wake_all(this); }
-  VS_SHIM void acquire() { for (;;) { vsim::point(vsim::K_AWAIT, this, 0); if (n_ > 0) { n_--; VS_TACQ(this); vsim::progress(); return; } vsim::block_on(this); } }
-  VS_SHIM bool try_acquire() noexcept { vsim::point(vsim::K_ALOAD, this, 0); if (n_ > 0) { n_--; VS_TACQ(this); return true; } return false; }
+  VS_LOCKSHIM void release(ptrdiff_t k = 1) { vsim::point(vsim::K_ARMW, this, 0); VS_TREL(this); n_ += k; vsim::written(this); vsim::wake_all(this); }
+  VS_LOCKSHIM void acquire() { for (;;) { vsim::point(vsim::K_AWAIT, this, 0); if (n_ > 0) { n_--; VS_TACQ(this); vsim::progress(); return; } vsim::block_on(this); } }
+  VS_LOCKSHIM bool try_acquire() noexcept { vsim::point(vsim::K_ALOAD, this, 0); if (n_ > 0) { n_--; VS_TACQ(this); return true; } return false; }
 };
 typedef vsim_counting_semaphore<1> vsim_binary_semaphore;
 
